@@ -140,6 +140,52 @@ impl Target for PyTarget {
     }
 }
 
+// ------------------------------------------------------------------------------------- Rust (harness in --serve mode)
+
+pub struct RustTarget {
+    exe: std::path::PathBuf,
+    batch: std::path::PathBuf,
+    pipe: Pipe,
+}
+
+impl RustTarget {
+    pub fn new(exe: &std::path::Path, batch: &std::path::Path) -> Result<RustTarget, String> {
+        Ok(RustTarget { exe: exe.to_path_buf(), batch: batch.to_path_buf(), pipe: Self::spawn(exe, batch)? })
+    }
+    fn spawn(exe: &std::path::Path, batch: &std::path::Path) -> Result<Pipe, String> {
+        let mut c = Command::new(exe);
+        c.args(["--prop", "C07", "--serve", "--batch"]).arg(batch).env("RUST_BACKTRACE", "0");
+        Pipe::spawn(c)
+    }
+}
+
+impl Target for RustTarget {
+    fn dec(&mut self, di: usize, ty: &str, _root: &str, b: &[u8]) -> RDec {
+        match self.pipe.call(&["D", &di.to_string(), ty, &hex(b)]) {
+            Err(e) => RDec::Crash(e),
+            Ok(p) => match p.first().map(|s| s.as_str()) {
+                Some("OK") if p.len() >= 4 => RDec::Ok { class: p[1].clone(), value: serde_json::from_str(&p[2]).unwrap_or(Value::Null), reser: if p[3].starts_with("EXC:") { Err(p[3].clone()) } else { Ok(unhex(&p[3])) }, size: Err("-".into()) },
+                Some("ERR") if p.len() >= 3 => RDec::Err { class: p[1].clone(), proper: p[2] == "1", msg: String::new() },
+                _ => RDec::Crash(format!("protocol: {:?}", p)),
+            },
+        }
+    }
+    fn enc(&mut self, di: usize, ty: &str, v: &Value) -> REnc {
+        match self.pipe.call(&["E", &di.to_string(), ty, &v.to_string()]) {
+            Err(e) => REnc::Crash(e),
+            Ok(p) => match p.first().map(|s| s.as_str()) {
+                Some("OK") if p.len() >= 3 => REnc::Ok { bytes: unhex(&p[1]), size: p[2].parse::<u64>().map_err(|_| p[2].clone()) },
+                Some("ERR") if p.len() >= 2 => REnc::Err { class: p[1].clone(), msg: String::new() },
+                _ => REnc::Crash(format!("protocol: {:?}", p)),
+            },
+        }
+    }
+    fn restart(&mut self) -> Result<(), String> {
+        self.pipe = Self::spawn(&self.exe, &self.batch)?;
+        Ok(())
+    }
+}
+
 // ------------------------------------------------------------------------------------- Java
 
 pub struct JavaTarget {
